@@ -199,6 +199,8 @@ def layout_item(rnd, kind, labels):
         return rnd.choice(TWO_WORD)()
     if kind == "lds":
         return instr("lds", R(16 + rnd.randrange(16)), E(0x60 + rnd.randrange(0x40)))
+    if kind == "sts":
+        return instr("sts", E(0x60 + rnd.randrange(0x40)), R(16 + rnd.randrange(16)))
     if kind in ("db1", "db2", "db3", "dbs", "dw", "dd", "dq"):
         return data_item(rnd, kind)
     if kind == "byte":
@@ -235,7 +237,7 @@ def orgs_well_placed(prog):
 
 def gen_layout_exhaustive(maxlen, devs):
     """All sequences up to maxlen over the layout alphabet x device classes."""
-    alpha = ["w1", "w2", "lds", "db1", "db2", "db3", "dw", "dq", "byte", "label", "org+", "code", "data", "eeprom"]
+    alpha = ["w1", "w2", "lds", "sts", "db1", "db2", "db3", "dw", "dq", "byte", "label", "org+", "code", "data", "eeprom"]
     rnd = random.Random(1)
     out = []
     for n in range(1, maxlen + 1):
@@ -246,7 +248,7 @@ def gen_layout_exhaustive(maxlen, devs):
             if seq[-1] in ("org+", "code", "data", "eeprom"):
                 continue
             for dev in devs:
-                if dev != devs[0] and "lds" not in seq and "data" not in seq:
+                if dev != devs[0] and "lds" not in seq and "sts" not in seq and "data" not in seq:
                     continue        # the device only matters for lds length and RAM start
                 labels, prog, cur, cnt = [], [], "code", {"code": 0, "data": 0, "eeprom": 0}
                 if dev:
@@ -270,7 +272,7 @@ def gen_layout_exhaustive(maxlen, devs):
 
 def gen_layout_random(rnd, n, devs):
     out = []
-    kinds = ["w1", "w1", "w2", "lds", "db1", "db2", "db3", "dbs", "dw", "dd", "dq", "label", "label"]
+    kinds = ["w1", "w1", "w2", "lds", "sts", "db1", "db2", "db3", "dbs", "dw", "dd", "dq", "label", "label"]
     for _ in range(n):
         dev = rnd.choice(devs)
         prog, labels = [], []
@@ -337,7 +339,7 @@ def check_c02(prop, tier, seed, devices):
                 observe_labels(prog, ["here"])
                 cases.append(Case(prog, tag=tag))
     return run_cases(prop, tier, seed, cases, devices, keyf=default_key,
-                     rule="all sequences up to length 3 (quick) / 4 (thorough) over a 14-symbol layout alphabet x 3 device classes, "
+                     rule="all sequences up to length 3 (quick) / 4 (thorough) over a 15-symbol layout alphabet x 3 device classes, "
                           "plus seeded random programs of 5-60 items over 5 devices; each with a .dw table of its labels; "
                           "distinct = distinct rendered source",
                      assumptions=["an .org that is not followed by a space-occupying item in its block is not generated (property silent)"])
@@ -436,10 +438,25 @@ def check_c03(prop, tier, seed, devices):
             for st in sts:
                 for naming in ("label", "pc"):
                     cases.append(branch_case(rnd, kind, d, st, naming, prefix=di % 3))
+    # far targets, named by pc expression so that nothing has to be placed there: distances that come back into
+    # range when truncated to 8, 12, 16 or 32 bits
+    far = set()
+    for base in (128, 256, 4096, 8192, 32768, 65536, 1 << 22, 1 << 31, 1 << 32):
+        for k in (-66, -65, -64, -63, -1, 0, 1, 2, 62, 63, 64, 65):
+            far |= {base + k, -base + k}
+    far |= {127, 191, 192, 200, 319, 320, -129, -193, -320, 2048 + 4096, -2049 - 4096, 65538, -65538}
+    for ki, kind in enumerate(BR_KINDS + JMP_KINDS):
+        mn, sbit = kind
+        pick = sorted(far) if (tier == "thorough" or mn in ("rjmp", "rcall", "brne", "brbs")) else sorted(far)[ki % 7::7]
+        for d in pick:
+            tgt = binop("+", sym("pc"), lit(1 + d)) if d >= -1 else binop("-", sym("pc"), lit(-d - 1))
+            ops_ = ([E(sbit)] if sbit is not None else []) + [E(tgt)]
+            cases.append(Case([instr("nop"), instr("nop"), instr(mn, *ops_), instr("ret")], tag="far"))
     return run_cases(prop, tier, seed, cases, devices, keyf=default_key,
                      rule="<prefix, branch/jump, filler, target> forward and backward for 34 branch forms + rjmp/rcall; every boundary "
                           "distance for every form, every distance -70..70 with forms rotated; fillers: nop, jmp, odd .db, .dw, 3-byte .db, "
-                          ".org gap, mixed; target named by label and by pc expression")
+                          ".org gap, mixed; target named by label and by pc expression; plus far targets (around +-2^7, 2^8, 2^12, 2^13, 2^15, 2^16, 2^22, 2^31, "
+                          "2^32) named by pc expression")
 
 
 CHECKS["C03"] = check_c03
@@ -496,10 +513,21 @@ def check_c06(prop, tier, seed, devices):
     for n in (0, 1, 2, 5):
         for segname in ("eeprom", "code", "data"):
             cases.append(Case([seg(segname), data(1, E(1)) if segname == "eeprom" else line("blank"), byte(n), data(1, E(2)) if segname == "eeprom" else line("blank")], tag="byte." + segname))
+    # reservations and data in EEPROM blocks that do not start at address 0: after .org, and in a block resumed
+    # after another segment
+    for n in (0, 1, 2, 5):
+        for k in (1, 4, 9):
+            for w in (1, 2, 4):
+                cases.append(Case([seg("eeprom"), org(k), byte(n), data(w, E(0x5a), lab="after")], tag="byte.eeprom-org"))
+                cases.append(Case([seg("eeprom"), data(1, *[E(i) for i in range(k)]), seg("code"), instr("nop"), seg("eeprom"),
+                                   byte(n), data(w, E(0x5a)), seg("data"), byte(1), seg("eeprom"), data(1, E(1)), byte(n), data(1, E(2))],
+                                  tag="byte.eeprom-resumed"))
+                cases.append(Case([seg("eeprom"), data(w, E(1)), org(k + 8), data(w, E(2)), byte(n), org(k + 20), byte(n), data(1, S("z"))],
+                                  tag="byte.eeprom-org"))
     return run_cases(prop, tier, seed, cases, devices, keyf=default_key,
                      rule=".db/.dw/.dd/.dq with element lists of length 0..5 over boundary values of each width (both ends, signed and unsigned), "
                           ".equ symbols, labels and ten strings (empty, non-ASCII, containing ; , //), in code, eeprom and data segments, "
-                          "followed by a second item; .byte n in each segment")
+                          "followed by a second item; .byte n in each segment, in EEPROM blocks after .org and in resumed EEPROM blocks")
 
 
 CHECKS["C06"] = check_c06
@@ -522,12 +550,14 @@ def sym_program(rnd, n):
     rnd.shuffle(pending)
     alias_on, set_on = {}, set()
     prog = []
+    segs = rnd.random() < 0.5
+    cur = ["code"]
     steps = max(n, len(pending))
     for step in range(steps):
         if pending and rnd.random() < len(pending) / float(steps - step):
             kind, nme = pending.pop()
             if kind == "label":
-                prog.append(rnd.choice([label(nme), instr("nop", lab=nme)]))
+                prog.append(label(nme) if cur[0] != "code" else rnd.choice([label(nme), instr("nop", lab=nme)]))
             else:
                 others = [x for x in use_equ + use_lab if x != nme]
                 e = binop("+", sym(rnd.choice(others)), lit(1)) if others and rnd.random() < 0.4 else lit(rnd.randrange(1, 60))
@@ -541,6 +571,18 @@ def sym_program(rnd, n):
             return rnd.choice(pool) if pool and rnd.random() < 0.85 else rnd.choice(fallback)
         on = [a for a in aliases if alias_on.get(a)]
         x = rnd.random()
+        if segs and rnd.random() < 0.18:
+            # symbol directives take effect wherever they are written: wander through the segments
+            cur[0] = rnd.choice(["code", "data", "eeprom"])
+            prog.append(seg(cur[0]))
+            continue
+        if cur[0] != "code" and x >= 0.37:
+            if cur[0] == "eeprom" and rnd.random() < 0.5:
+                prog.append(data(2, E(sym(pick(bound, anyname)))))
+            else:
+                cur[0] = "code"
+                prog.append(seg("code"))
+            continue
         if x < 0.22:
             nme = rnd.choice(sets)
             opts = [lit(rnd.randrange(1, 60))]
@@ -558,8 +600,14 @@ def sym_program(rnd, n):
             else:
                 alias_on[a] = False
                 prog.append(undef(a))
-        elif x < 0.57:
+        elif x < 0.50:
             prog.append(instr("ldi", R(18), E(sym(pick(bound, anyname + aliases)))))
+        elif x < 0.57:
+            # a name inside a larger expression: every operand of every operator is a reference
+            a, b = sym(pick(bound, anyname)), sym(pick(bound, anyname))
+            op = rnd.choice(["&&", "||", "+", "&", "==", "*"])
+            e = binop(op, a, b) if rnd.random() < 0.5 else binop(op, lit(rnd.choice([0, 1])), b)
+            prog.append(instr("ldi", R(18), E(binop("&", par(e), lit(63)))))
         elif x < 0.72:
             prog.append(data(2, E(sym(pick(bound, anyname)))))
         elif x < 0.84:
@@ -602,6 +650,14 @@ def check_c10(prop, tier, seed, devices):
         [setv("cnt1", 1), data(2, E(sym("cnt1"))), setv("cnt1", binop("+", sym("cnt1"), lit(1))), data(2, E(sym("cnt1")))],
         [data(2, E(sym("v9"))), setv("v9", 4)],
         [equ("a1", binop("+", sym("b1"), lit(1))), equ("b1", 2), instr("ldi", R(16), E(sym("a1")))],
+        [equ("dbg", 0), instr("ldi", R(16), E(binop("&&", sym("dbg"), sym("nolevel"))))],
+        [equ("dbg", 1), instr("ldi", R(16), E(binop("||", sym("dbg"), sym("nolevel"))))],
+        [equ("dbg", 0), data(1, E(binop("&&", sym("dbg"), sym("notable"))), E(1))],
+        [setv("xv", 1), seg("data"), setv("xv", 2), seg("code"), instr("ldi", R(16), E(sym("xv")))],
+        [defr("tmp", 16), seg("data"), undef("tmp"), seg("code"), instr("inc", E(sym("tmp")))],
+        [seg("data"), defr("tmp", 17), byte(1), seg("code"), instr("inc", E(sym("tmp")))],
+        [defr("tmp", 16), seg("eeprom"), undef("tmp"), defr("tmp", 18), seg("code"), instr("inc", E(sym("tmp")))],
+        [seg("eeprom"), setv("yv", 7), data(1, E(sym("yv"))), seg("data"), setv("yv", 9), seg("code"), data(2, E(sym("yv")))],
     ]
     for p in hand:
         for cs in CASES3:
